@@ -6,6 +6,9 @@ require (
 	github.com/andres-erbsen/clock v0.0.0-20160526145045-9e14626cd129
 	github.com/anishathalye/porcupine v1.3.0
 	github.com/docker/distribution v2.7.1+incompatible
+	github.com/jmoiron/sqlx v0.0.0-20190319043955-cdf62fdf55f6
+	github.com/mattn/go-sqlite3 v1.14.0
+	github.com/pressly/goose v2.6.0+incompatible
 	github.com/uber-go/tally v3.3.11+incompatible
 	github.com/uber/kraken v0.0.0
 	go.uber.org/atomic v1.5.0
@@ -14,15 +17,26 @@ require (
 
 require (
 	github.com/aws/aws-sdk-go v1.21.4 // indirect
+	github.com/c2h5oh/datasize v0.0.0-20171227191756-4eba002a5eae // indirect
+	github.com/cenkalti/backoff v2.2.1+incompatible // indirect
 	github.com/cespare/xxhash/v2 v2.3.0 // indirect
 	github.com/davecgh/go-spew v1.1.1 // indirect
+	github.com/felixge/httpsnoop v1.0.4 // indirect
+	github.com/go-chi/chi v4.0.2+incompatible // indirect
+	github.com/go-logr/logr v1.4.3 // indirect
+	github.com/go-logr/stdr v1.2.2 // indirect
 	github.com/jackpal/bencode-go v0.0.0-20180813173944-227668e840fa // indirect
+	github.com/pkg/errors v0.9.1 // indirect
 	github.com/pmezard/go-difflib v1.0.0 // indirect
 	github.com/spaolacci/murmur3 v0.0.0-20180118202830-f09979ecbc72 // indirect
 	github.com/stretchr/testify v1.11.1 // indirect
+	go.opentelemetry.io/auto/sdk v1.2.1 // indirect
+	go.opentelemetry.io/contrib/instrumentation/net/http/otelhttp v0.46.0 // indirect
 	go.opentelemetry.io/otel v1.41.0 // indirect
+	go.opentelemetry.io/otel/metric v1.41.0 // indirect
 	go.opentelemetry.io/otel/trace v1.41.0 // indirect
 	go.uber.org/multierr v1.4.0 // indirect
+	golang.org/x/time v0.0.0-20200416051211-89c76fbcd5d1 // indirect
 	gopkg.in/yaml.v3 v3.0.1 // indirect
 )
 
